@@ -4,19 +4,19 @@ import json, subprocess
 
 CLAIMED = {
  "C01": dict(
-  text="Proof of every per-entry decision of the transfer and of every argument handed to the kernel, for all stats, modes and paths: diff step (pathChange via the ComparePath contract, merge-loop step obligations), DiskWriter.HandleChange (Lstat-only inspection, creation arm by mode, metadata applied after creation and before rename, RemoveAll iff dir<->non-dir switch, dirModTimes recorded), rewriteMetadata order (xattrs, owner, mode never on symlinks, times last, no-follow), exact nanosecond split in chtimes, mtime re-applied after the asynchronous content write, device number round trip (bit-vector lemma over the real unix.Mkdev body) and device type bits. Not decided: that these per-entry facts compose to tree equality over a real disk and under concurrency (explicit assumption). Round 3: the check runs every contract of the root package and of types (DESIGN 15.1); destination walked unless merging and walked whole (getWalkerFn, Walk); walk entries carry a stat by a proved channel invariant; the filter's copy of the stat is what is written; directory times restored also for a symlinked destination (F35, repaired); hard link source not a leftover symlink (F29, repaired). Known: F17 (capabilities), F36 (metadata differ keeps a same-size same-mtime file, by design).",
+  text="Proof of every per-entry decision of the transfer and of every argument handed to the kernel, for all stats, modes and paths: diff step (pathChange via the ComparePath contract, merge-loop step obligations), DiskWriter.HandleChange (Lstat-only inspection, creation arm by mode, metadata applied after creation and before rename, RemoveAll iff dir<->non-dir switch, dirModTimes recorded), rewriteMetadata order (xattrs, owner, mode never on symlinks, times last, no-follow), exact nanosecond split in chtimes, mtime re-applied after the asynchronous content write, device number round trip (bit-vector lemma over the real unix.Mkdev body) and device type bits. Not decided: that these per-entry facts compose to tree equality over a real disk and under concurrency (explicit assumption). Round 3: the check runs every contract of the root package and of types (DESIGN 15.1); destination walked unless merging and walked whole (getWalkerFn, Walk); walk entries carry a stat by a proved channel invariant; the filter's copy of the stat is what is written; directory times restored also for a symlinked destination (F35, repaired); hard link source not a leftover symlink (F29, repaired). Known: F17 (capabilities), F36 (metadata differ keeps a same-size same-mtime file, by design). A later name of a hard-linked fifo or device is linked, not created again (F39, repaired); an existing entry is replaced by rename, never reopened in place; the temporary name is gone after the rename (F38, repaired).",
   note="Assumed contracts (effects) on os.*/unix.*/sysx.* calls; user callbacks do not modify fsutil objects; channel/goroutine semantics not modelled; trusted generated Stat.Clone; signed arithmetic mathematical where safety +overflow is not set.",
   design="DESIGN.md section 3 C01"),
  "C02": dict(
-  text="Proof: compareStat/sameFile equal the identity tuple of the statement for all stat pairs (every field; size and mtime exactly for non-directories), DiffNone disables it; the merge loop forwards a change for a common path only if !same; content is requested only on the regular non-link arm of HandleChange, at most once per call; asyncDataFunc sends exactly one REQ with the announced id and consumes the path; fileCanRequestData pinned to the numeric type mask (bit-vector). Whole-merge minimality over two sorted sequences is a bounded stand-in (not counted as proved). Round 3: nextPath is proved from a channel invariant (no trusted contract left in the root package); destination compared unless merging; SubDirFS keeps a re-rooted symlink's size consistent (F24, repaired: such a link was re-created on every re-sync).",
+  text="Proof: compareStat/sameFile equal the identity tuple of the statement for all stat pairs (every field; size and mtime exactly for non-directories), DiffNone disables it; the merge loop forwards a change for a common path only if !same; content is requested only on the regular non-link arm of HandleChange, at most once per call; asyncDataFunc sends exactly one REQ with the announced id and consumes the path; fileCanRequestData pinned to the numeric type mask (bit-vector). Whole-merge minimality over two sorted sequences is a bounded stand-in (not counted as proved). Round 3: nextPath is proved from a channel invariant (no trusted contract left in the root package); destination compared unless merging; SubDirFS keeps a re-rooted symlink's size consistent (F24, repaired: such a link was re-created on every re-sync). Hard-linked special files keep their identity across re-syncs (F39, repaired).",
   note="Assumed: the channel invariant of walk entries rests on a module-wide syntactic scan (sends only in functions under contract, entry fields written only at construction) and on a precondition of the destination walker callback; os effects, callbacks; destination and source stats come from the same constructor (call-graph fact).",
   design="DESIGN.md section 3 C02"),
  "C03": dict(
-  text="Proof: validator soundness (accept ==> clean, relative, not '.', not '..', not '../…', parent is an open directory, base name above the last child, stack discipline and representation invariant), hard-link source must have been seen, and in the receive loop an entry is forwarded only after both validators accepted it in the same iteration; DATA for an unregistered id is an error before any write; the disk writer inspects with Lstat only and picks the directory arm before the symlink arm. Round 3: a hard link whose source in the destination is a symlink is rejected before os.Link (F29, repaired: the metadata of the new name was applied through a link left in the destination when the link source had been filtered out); Lstat discipline stated per call site.",
+  text="Proof: validator soundness (accept ==> clean, relative, not '.', not '..', not '../…', parent is an open directory, base name above the last child, stack discipline and representation invariant), hard-link source must have been seen, and in the receive loop an entry is forwarded only after both validators accepted it in the same iteration; DATA for an unregistered id is an error before any write; the disk writer inspects with Lstat only and picks the directory arm before the symlink arm. Round 3: a hard link whose source in the destination is a symlink is rejected before os.Link (F29, repaired: the metadata of the new name was applied through a link left in the destination when the link source had been filtered out); Lstat discipline stated per call site. Known: F37 (merge + metadata-only: a hard link whose source lies below a skipped directory is resolved through a symlink left in the destination).",
   note="Assumed: audited axioms-free uninterpreted filepath.Clean/Dir/Base/Join/IsAbs (only equalities of identical applications are used); lexical containment of Join(dest,p) for accepted p is an assumption; os effects; no concurrency.",
   design="DESIGN.md section 3 C03"),
  "C05": dict(
-  text="Proof: exactly one notification per applied add/modify (non-content entries: after every filesystem effect of the call; content entries: from the asynchronous job after the content callback), delete notified after RemoveAll, nothing notified when a filter rejects, digest header = caller's hash of the stat as sent (never the filtered copy), digest finalised before the writer is closed and before the notification; delete suppression prefix always ends with the separator. Found and repaired: directory-over-directory metadata updates were not notified. Round 3: pending ancestors of a metadata-only receive are flushed when the selected entry is forwarded (each ancestor once); the digest is seeded with the stat as sent, the disk gets the filter's copy.",
+  text="Proof: exactly one notification per applied add/modify (non-content entries: after every filesystem effect of the call; content entries: from the asynchronous job after the content callback), delete notified after RemoveAll, nothing notified when a filter rejects, digest header = caller's hash of the stat as sent (never the filtered copy), digest finalised before the writer is closed and before the notification; delete suppression prefix always ends with the separator. Found and repaired: directory-over-directory metadata updates were not notified. Round 3: pending ancestors of a metadata-only receive are flushed when the selected entry is forwarded (each ancestor once); the digest is seeded with the stat as sent, the disk gets the filter's copy. No unreported temporary name stays behind (F38, repaired).",
   note="Assumed: hasher/notify callbacks, io.MultiWriter, os effects; 'once per path across the whole transfer' needs the merge induction (bounded stand-in); async completion order not modelled.",
   design="DESIGN.md section 3 C05"),
  "C06": dict(
@@ -24,17 +24,17 @@ CLAIMED = {
   note="Not decided: request order/timing/concurrency, the worker pool, errgroup. Assumed: Stream/FS interface contracts (effects), io.CopyBuffer calls only Write/Read, sync.Pool holds *[]byte.",
   design="DESIGN.md section 3 C06"),
  "C07": dict(
-  text="Proof of the receiver's per-call protocol obligations: loop invariant id counter == number of STATs received (ghost), an id is registered under the zero-based position of its STAT, pipe registered before the REQ is sent, each path requested at most once with its announced id, DATA routed to the registered pipe (Close iff empty payload) before the next receive, nil result only after io.EOF; the diff goroutine sends FIN only after the two-way diff and then the disk writer's wait both succeeded (ghost markers) and reports a failure with ERR; exactly two goroutines; the listing file is written only for a metadata-only transfer, after both goroutines ended, to dest/.fsutil-metadata after removing a stale entry. Round 3: all contracts of the root package and types are run; the destination walker is wired unless merging; stats compared field by field (compareStat) also under this property.",
+  text="Proof of the receiver's per-call protocol obligations: loop invariant id counter == number of STATs received (ghost), an id is registered under the zero-based position of its STAT, pipe registered before the REQ is sent, each path requested at most once with its announced id, DATA routed to the registered pipe (Close iff empty payload) before the next receive, nil result only after io.EOF; the diff goroutine sends FIN only after the two-way diff and then the disk writer's wait both succeeded (ghost markers) and reports a failure with ERR; exactly two goroutines; the listing file is written only for a metadata-only transfer, after both goroutines ended, to dest/.fsutil-metadata after removing a stale entry. Round 3: all contracts of the root package and types are run; the destination walker is wired unless merging; stats compared field by field (compareStat) also under this property. Content is written into a new entry that replaces the old one by rename (an entry reopened in place would keep the tail of longer old content).",
   note="Not decided: interleavings of ids and STAT/DATA races, 'all content on disk before FIN' beyond sequential order. Assumed: Stream contract, channel semantics, trusted generated ResetVT/SizeVT.",
   design="DESIGN.md section 3 C07"),
  "C09": dict(
-  text="Proof: ComparePath equals the separator-lowest first-difference order (strict order lemmas), the walk callback never reports the root and reports every other entry at most once (exactly once unless cancelled) under its root-relative path, the stat constructor records path/mode-without-socket-bit/mtime/size/owner/link target as given by lstat/readlink, the inode map makes the first name of an inode the file and every later name a link to that first name (map otherwise unchanged), device numbers via major/minor, sub-root prefixing of forwarded paths, and the sub-root sort reads the slice it sorts. Not decided: completeness/stability of the kernel listing and that filepath.WalkDir visits name-sorted (assumed). Round 3: xattr names are listed exactly once for the entry itself whatever its type; a re-rooted link's size follows its target (F24).",
+  text="Proof: ComparePath equals the separator-lowest first-difference order (strict order lemmas), the walk callback never reports the root and reports every other entry at most once (exactly once unless cancelled) under its root-relative path, the stat constructor records path/mode-without-socket-bit/mtime/size/owner/link target as given by lstat/readlink, the inode map makes the first name of an inode the file and every later name a link to that first name (map otherwise unchanged), device numbers via major/minor, sub-root prefixing of forwarded paths, and the sub-root sort reads the slice it sorts. Not decided: completeness/stability of the kernel listing and that filepath.WalkDir visits name-sorted (assumed). Round 3: xattr names are listed exactly once for the entry itself whatever its type; a re-rooted link's size follows its target (F24). The comparison of the sub-root sort is specified at the sort call (any comparator closure, also in a helper, must compute it); a callback's SkipDir is passed on unchanged by the walk.",
   note="Assumed: filepath.WalkDir pre-order over sorted ReadDir, lstat/readlink/xattr effects, filepath.Rel uninterpreted, sort.Slice permutes only its argument.",
   design="DESIGN.md section 3 C09"),
  "C10": dict(
   category="exploration",
   technique="bounded exhaustive enumeration of the real filtered walk against two reference filters (the equality depends on a dependency's regexp matcher and cannot be stated as a contract); plus contract-based proof of the walk's own bookkeeping",
-  text="Whether a pattern matches is decided by moby/patternmatcher (regexp); no contract within reach can state it, so the central equality is decided by a bounded stand-in, labelled bounded: the real filterFS.Walk over 3 on-disk trees x every include/exclude list of the stated bound from a 26-pattern pool is compared with the naive reference of the statement and with an unpruned incremental reference (pruning unobservable, order, no duplicates). Proved for all inputs in addition (reported separately, never mixed into the counts): the visited-directory stack only holds separator-terminated prefixes, nothing is emitted for skipped entries, the map function is consulted before any emission, the pruning prefix tests compare separator-terminated strings, patternWithoutTrailingGlob.",
+  text="Whether a pattern matches is decided by moby/patternmatcher (regexp); no contract within reach can state it, so the central equality is decided by a bounded stand-in, labelled bounded: the real filterFS.Walk over 3 on-disk trees x every include/exclude list of the stated bound from a 26-pattern pool is compared with the naive reference of the statement and with an unpruned incremental reference (pruning unobservable, order, no duplicates). Proved for all inputs in addition (reported separately, never mixed into the counts): the visited-directory stack only holds separator-terminated prefixes, nothing is emitted for skipped entries, the map function is consulted before any emission, the pruning prefix tests compare separator-terminated strings, patternWithoutTrailingGlob. A callback's SkipDir verdict (the map function's 'drop the rest of this directory') reaches the underlying walk unchanged, for files and directories alike.",
   note="Known finding (dependency): the walk equals the incremental reference everywhere but differs from the naive one for lists like [a/b, !a]. Bounded: small trees, short pattern lists.",
   design="DESIGN.md section 3 C10"),
  "C11": dict(
@@ -66,15 +66,15 @@ CLAIMED = {
   note="Assumed: archive/tar FileInfoHeader/Writer contracts, FS interface, xattr PAX records not tracked (map iteration).",
   design="DESIGN.md section 3 C17"),
  "C18": dict(
-  text="Proof: dedupePaths returns a list in which no element lies inside another whenever its input is strictly ascending in path order (loop invariants + proved lemmas inside_less, contiguity, inside_hasprefix over the spec), a root entry collapses the list; the comparator FollowLinks sorts with is the protocol path order (found bytewise, repaired), and FollowLinks establishes that precondition: the keys collected from the resolved set are pairwise distinct (ghost visited set of the map range), sort.Slice with a comparator proved to be a strict weak order yields an ascending permutation, distinct + total order gives strictly ascending, so FollowLinks' result is ascending and prefix-free for every tree; the resolver's termination measure is a contract: a link path is added to the finite resolved set as a NEW element before any recursive call and an already resolved path returns at once, the set only grows. End-to-end closure/termination over link graphs is a bounded stand-in (not counted as proved) with two known findings (lexical '..' after a link; over-eager cycle guard). Round 3: every directory entry is offered to a wildcard and every match resolved on its own; dedupePaths is an order-preserving subsequence; pruning flags computed with every pattern character incl. the escape. Known: F7, F8, F31 (followed locations used as unescaped patterns; middle wildcards not followed).",
+  text="Proof: dedupePaths returns a list in which no element lies inside another whenever its input is strictly ascending in path order (loop invariants + proved lemmas inside_less, contiguity, inside_hasprefix over the spec), a root entry collapses the list; the comparator FollowLinks sorts with is the protocol path order (found bytewise, repaired), and FollowLinks establishes that precondition: the keys collected from the resolved set are pairwise distinct (ghost visited set of the map range), sort.Slice with a comparator proved to be a strict weak order yields an ascending permutation, distinct + total order gives strictly ascending, so FollowLinks' result is ascending and prefix-free for every tree; the resolver's termination measure is a contract: a link path is added to the finite resolved set as a NEW element before any recursive call and an already resolved path returns at once, the set only grows. End-to-end closure/termination over link graphs is a bounded stand-in (not counted as proved) with two known findings (lexical '..' after a link; over-eager cycle guard). Round 3: every directory entry is offered to a wildcard and every match resolved on its own; dedupePaths is an order-preserving subsequence; pruning flags computed with every pattern character incl. the escape. Known: F7, F8, F31 (followed locations used as unescaped patterns; middle wildcards not followed). Every requested path goes through the component-wise resolver; requests are clamped to the root like link targets (F40, repaired; reported by the stand-in).",
   note="Assumed: sort.Slice returns a permutation ordered by a less function that is a strict weak order (the strict-weak-order conditions are proof obligations); a map range yields each key at most once; FS.Walk contract (invokes its callback); filepath functions uninterpreted.",
   design="DESIGN.md section 3 C18"),
  "C19": dict(
-  text="Proof: buffer.alloc hands out the next n bytes of the concatenation view (region directly behind the last one or a fresh chunk at the end; earlier chunks keep position, backing array and length; index/slice safety; no overflow); in the receive loop every non-listing-name STAT is framed as LE32(size)+record of exactly that size, the listing's own name is skipped but still counted in the id sequence (found and repaired), ids are registered only for selected files; each record is exactly SizeVT bytes (encoder proved against the size specification); the pending unselected directories form a chain of direct parents (so only ancestors are replayed); the listing is written chunk by chunk in order to dest/.fsutil-metadata after both goroutines ended and a stale entry was removed. Round 3: known finding F27 (a source directory, or the target of a hard link, named like the listing file fails the transfer).",
+  text="Proof: buffer.alloc hands out the next n bytes of the concatenation view (region directly behind the last one or a fresh chunk at the end; earlier chunks keep position, backing array and length; index/slice safety; no overflow); in the receive loop every non-listing-name STAT is framed as LE32(size)+record of exactly that size, the listing's own name is skipped but still counted in the id sequence (found and repaired), ids are registered only for selected files; each record is exactly SizeVT bytes (encoder proved against the size specification); the pending unselected directories form a chain of direct parents (so only ancestors are replayed); the listing is written chunk by chunk in order to dest/.fsutil-metadata after both goroutines ended and a stale entry was removed. Round 3: known finding F27 (a source directory, or the target of a hard link, named like the listing file fails the transfer). Loop invariant: every announced entry got its record after it arrived, or is named exactly like the listing file.",
   note="Assumed: record bytes are the protobuf encoding of the stat (content of varints/tags not decided); selector callback.",
   design="DESIGN.md section 3 C19"),
  "C20": dict(
-  text="Proof with exact bit-vector integers and loop invariants re-inferred on every run (Houdini): the hand-optimised decoders (*Packet).UnmarshalVT and (*Stat).UnmarshalVT never index, slice or allocate out of range for any byte string and any prior message (all 40+ loops), assign slice fields only their old or a fresh backing array (never the input buffer), the exported Unmarshal uses the copying decoder; protoStream.SendMsg writes one frame of 4+Size() bytes with a big-endian prefix (the message type must implement the marshaling interface - found missing, repaired), RecvMsg reads exactly one frame into a buffer of exactly the declared length, leaves the message untouched for an empty frame and fails only when reading or decoding fails. Encoder side: SizeVT of Stat and Packet proved equal to size specification functions (xattrs as a ghost sum over the map range), MarshalToSizedBufferVT of both proved to stay inside a buffer of that size and to report exactly that size, so SendMsg always writes exactly one frame of 4 + size bytes and MarshalTo cannot fail for a Packet. Not decided: that the bytes are the protobuf encoding (varint content, tag numbers), Unmarshal(Marshal(x)) == x, equality with the reflection-based protobuf runtime (out of reach, stated). Round 3: allocation bounds as obligations - RecvMsg allocates nothing sized by the unread length prefix (F25, repaired: 4 bytes reserved up to 4 GiB), Stat.UnmarshalVT nothing larger than the input.",
+  text="Proof with exact bit-vector integers and loop invariants re-inferred on every run (Houdini): the hand-optimised decoders (*Packet).UnmarshalVT and (*Stat).UnmarshalVT never index, slice or allocate out of range for any byte string and any prior message (all 40+ loops), assign slice fields only their old or a fresh backing array (never the input buffer), the exported Unmarshal uses the copying decoder; protoStream.SendMsg writes one frame of 4+Size() bytes with a big-endian prefix (the message type must implement the marshaling interface - found missing, repaired), RecvMsg reads exactly one frame into a buffer of exactly the declared length, leaves the message untouched for an empty frame and fails only when reading or decoding fails. Encoder side: SizeVT of Stat and Packet proved equal to size specification functions (xattrs as a ghost sum over the map range), MarshalToSizedBufferVT of both proved to stay inside a buffer of that size and to report exactly that size, so SendMsg always writes exactly one frame of 4 + size bytes and MarshalTo cannot fail for a Packet. Not decided: that the bytes are the protobuf encoding (varint content, tag numbers), Unmarshal(Marshal(x)) == x, equality with the reflection-based protobuf runtime (out of reach, stated). Round 3: allocation bounds as obligations - RecvMsg allocates nothing sized by the unread length prefix (F25, repaired: 4 bytes reserved up to 4 GiB), Stat.UnmarshalVT nothing larger than the input. Header and payload are read from the stream itself (no read-ahead wrapper that would swallow the next frame).",
   note="Assumed: protohelpers.Skip results unconstrained (callers re-check), SizeOfVarint in 1..10 and EncodeVarint's offset arithmetic (audited), dispatch of the framing layer's interface calls to (*Packet).Size/MarshalTo, Packet.Reset trusted (generated), io.ReadFull/Writer contracts, sync.Pool holds *[]byte.",
   design="DESIGN.md section 3 C20"),
 }
